@@ -39,6 +39,17 @@ CORPUS = [
     '<div style="visibility:hidden;background:#000004;border:1px solid #000006">h<span style="visibility:visible;'
     'background:#000008;color:#000009">v</span></div>',
     '<div style="position:absolute;clip:rect(0px,20px,20px,0px);background:#000004">cl</div>',
+    # visibility is inherited and reset: visible inline content of every kind inside hidden inline / block boxes
+    '<p style="color:#000005">t<span style="visibility:hidden;background:#000008;color:#000009;border:1px solid #00000a">'
+    'h<span style="visibility:visible;background:#00000c;color:#00000d">v</span><b style="color:#000011">still hidden</b>'
+    '<span style="visibility:visible;display:inline-block;background:#000014;color:#000015">ib</span>'
+    '<span style="color:#000019">h<i style="visibility:visible;color:#00001d;outline:1px solid #00001f">deep</i></span>'
+    '</span>u</p>',
+    '<p style="visibility:collapse;background:#000004;color:#000005">h<span style="background:#000008;color:#000009">'
+    'h<span style="visibility:visible;color:#00000d">v</span></span></p>'
+    '<div style="visibility:hidden;float:left;background:#000010"><span style="color:#000015">h<span '
+    'style="visibility:visible;position:relative;color:#000019">rel</span><span style="visibility:visible;'
+    'background:#00001c;color:#00001d">v</span></span></div>',
     # the known findings
     '<table style="border-collapse:separate"><tr style="position:relative;background:#000004">'
     '<td style="background:#000008">a</td></tr></table>',
@@ -565,7 +576,8 @@ def check_html(html, exempt=True):
         what = oracle.contexts_violation(attrs, kids, real_contexts(page._page_box))
         if what:
             return f'page {index}: {what}', seen
-        what = oracle.laid_out_violation(attrs, kids, info, scene.laid_out(page._page_box))
+        what, findings = oracle.laid_out_violation(attrs, kids, info, scene.laid_out(page._page_box), exempt)
+        seen |= findings
         if what:
             return f'page {index}: {what}', seen
         events = docs.outcome(lambda: scene.paint_page(document, page))
@@ -576,7 +588,7 @@ def check_html(html, exempt=True):
     return None, seen
 
 
-def check_geometry(html):
+def check_geometry(html, exempt=True, findings=None):
     """Geometry clauses on a rendered document (judge / search / replay). -> text | None"""
     document = scene.render(html)
     for index, page in enumerate(document.pages):
@@ -584,10 +596,15 @@ def check_geometry(html):
         events = docs.outcome(lambda: scene.paint_page_geo(document, page))
         if events.startswith('err:'):
             return f'page {index}: painting raised {events}'
-        what = oracle.geometry_violation(page._page_box, events.split())
+        what = oracle.geometry_violation(page._page_box, events.split(), exempt, findings)
         if what:
             return f'page {index}: {what}'
     return None
+
+
+def geometry_finding_still_there(html, finding_id):
+    seen = set()
+    return bool(check_geometry(html, exempt=False, findings=seen)) and finding_id in seen
 
 
 def finding_still_there(html, finding_id):
@@ -600,6 +617,7 @@ class C17(PropCheck):
     id = 'C17'
     extractors = (stack_kinds.generate,)
     modules = ('WpModel.Props.C17', 'WpModel.Props.C17Paint', 'WpModel.Props.C17Text', 'WpModel.Props.C17Doc',
+               'WpModel.Props.C17Parts',
                'WpModel.Witness.C17')
     trusted_base = (
         'modelled, not verified: stacking.py (StackingContext.__init__/from_page/from_box, _dispatch, '
@@ -614,6 +632,9 @@ class C17(PropCheck):
         '(style[...] / border widths / cell.empty); with style_level=True the background and the transform are '
         'exported as the style says them (visibility, background-color, number of background images; border box, '
         'transform-origin, transform functions) and element_tag == html / body for the root box and its children',
+        'modelled, not verified: the TableRowGroupBox / TableRowBox / TableColumn(Group)Box branches of '
+        'layout_background_layer (painting area, clipped cell boxes) as Model/TablePartBg.lean, tied by the geometric '
+        'display list of documents with separated-borders tables',
         'modelled, not verified: layout_box_backgrounds (is there a Background, its colour), layout_backgrounds '
         '(canvas background from the root element or its <body> child, chosen_box.background = None, canvas '
         'painting area = page border box) and the guard of gather_anchors (class test: graph of the real function '
@@ -685,6 +706,8 @@ class C17(PropCheck):
                     continue
                 info = scene.doc_info(page_box)
                 meta = {'html': html, 'page': page_index, 'signature': f'doc{index}/{page_index}'}
+                if scene.SHARED:
+                    used = used | {'shared-box-dealiased'}
                 impl_laid = scene.laid_out(page_box)
                 root_wire = kids[0]
                 while root_wire[0] == 'P':
@@ -737,8 +760,12 @@ class C17(PropCheck):
             "model's (counted as float_rounding); non-trivial = a curved path and an asymmetric border")
         geo_lines, geo_impl, geo_meta = [], [], []
         for index in range(run.n(150, 2000)):
-            sc = scene.Scene(rng, max_depth=rng.choice([1, 2, 2, 3]), features={'geo': True, 'grid_context': 0.3})
+            sc = scene.Scene(rng, max_depth=rng.choice([1, 2, 2, 3]), features={
+                'geo': True, 'grid_context': 0.3, 'geo_tables': index % 3 == 0})
             html = sc.document()
+            if index < len(GEO_CORPUS):
+                html = BASE + GEO_CORPUS[index]
+                sc.used = {'corpus', 'table'}
             try:
                 document = scene.render(html)
             except Exception as exc:
@@ -965,8 +992,11 @@ class C17(PropCheck):
         return found
 
     def finding_replays(self):
-        return {fid: (lambda fid=fid, html=html: finding_still_there(BASE + html, fid))
-                for fid, html in FINDINGS.items()}
+        replays = {fid: (lambda fid=fid, html=html: finding_still_there(BASE + html, fid))
+                   for fid, html in FINDINGS.items()}
+        replays.update({fid: (lambda fid=fid, html=html: geometry_finding_still_there(BASE + html, fid))
+                        for fid, html in GEO_FINDINGS.items()})
+        return replays
 
     def replay(self, data):
         inp = data.get('input', {})
@@ -1012,9 +1042,43 @@ FINDINGS = {
         'z-index:-1;background:#000008;color:#000009">inner</span></span>',
     'outline-escapes-overflow-clip':
         '<div style="overflow:hidden;background:#000004"><p style="outline:2px solid #00000b;color:#000009">x</p></div>',
+    'collapse-paints-background':
+        '<p style="visibility:collapse;background:#000004;color:#000005;border:1px solid #000006">h</p>',
     'clip-escaped-by-positioned-descendant':
         '<div style="position:absolute;clip:rect(0px,5px,5px,0px);background:#000004"><div style="position:relative;'
         'background:#000008;color:#000009">x</div></div>',
+}
+
+# Hand-written geometry scenes, run first in `scene-geometry`: table parts (rows, row groups, columns, column
+# groups with backgrounds; rounded cells; border-spacing; row spans; empty cells), and the known finding.
+GEO_CORPUS = [
+    '<table style="border-collapse:separate;border-spacing:2px;background:#000020;font-family:weasyprint">'
+    '<colgroup style="background:#000024"><col style="background:#000028"><col></colgroup>'
+    '<tbody style="background:#000004"><tr style="background:#000008"><td style="height:20px;width:30px;'
+    'background:#00000c;border-radius:4px;color:#00000d">a</td><td style="color:#000011">x</td></tr></tbody></table>',
+    '<table style="border-collapse:separate;border-spacing:3px 1px;font-family:weasyprint">'
+    '<thead style="background:#000004"><tr style="background:#000008"><td rowspan="2" style="width:20px;'
+    'border:2px solid #00000e;color:#00000d">s</td><td style="color:#000011;height:15px">h</td></tr>'
+    '<tr style="background:#000014"><td style="color:#000019;height:25px;border-radius:50%">i</td></tr></thead>'
+    '<tbody><tr style="background:#00001c"><td style="color:#00001d"></td><td style="color:#000021;'
+    'empty-cells:hide"></td></tr></tbody></table>',
+    '<table style="border-collapse:separate;border-spacing:0;font-family:weasyprint"><tbody style="background:#000004">'
+    '<tr><td style="height:20px;width:30px;color:#000009">a</td></tr>'
+    '<tr><td style="height:20px;color:#00000d">b</td></tr></tbody></table>',
+    # right-to-left table: the first cell of a column group is its rightmost
+    '<table style="direction:rtl;border-collapse:separate;border-spacing:4px;font-family:weasyprint">'
+    '<colgroup style="background:#000004"><col style="background:#000008"><col></colgroup><col style="background:#00000c">'
+    '<tr style="background:#000010"><td style="width:20px;color:#000015">a</td><td style="width:35px;color:#000019">b'
+    '</td><td style="color:#00001d">c</td></tr><tr><td style="color:#000021">d</td><td colspan="2" '
+    'style="color:#000025;background:#000024">e</td></tr></table>',
+]
+
+# Known findings of the geometry clauses (judged by check_geometry).
+GEO_FINDINGS = {
+    'row-group-background-first-row-only':
+        '<table style="border-collapse:separate;border-spacing:0"><tbody style="background:#000004">'
+        '<tr><td style="height:20px;width:30px;color:#000009">a</td></tr>'
+        '<tr><td style="height:20px;color:#00000d">b</td></tr></tbody></table>',
 }
 
 # Input of the former finding `line-end-space-glyph` (repaired by edeb32e) and variants: text boxes at the end of a
@@ -1055,7 +1119,6 @@ MANIFEST = {
             'Page.paint = draw_page on that result.',
     'note': 'Trusted: Lean kernel, the class-test extractor, the export of a laid-out page (attributes, geometry), the '
             'content-stream interpreter, the PDF-reader side of the ToUnicode check. Not modelled: rotate/skew '
-            'trigonometry, border side segments and dashed/double styles, outlines\' geometry, table-part painting '
-            'areas, collapsed borders, images and gradients, font embedding. Four known findings are listed in '
+            'trigonometry, border side segments and dashed/double styles, outlines\' geometry, collapsed borders, images and gradients, font embedding. Six known findings are listed in '
             'known_findings.txt.',
 }
